@@ -370,8 +370,28 @@ def ok_values(f, v):
         if k == "ok":
             out.append(v.cx.operand(rv["ops"][0]))
         elif k == "call" and returns_result(f):
-            out.append(okval(v.cx.call(rv, v.cx.site(b))))
+            out += ok_of(v.prog, v.cx.call(rv, v.cx.site(b)))
     return out
+
+
+def ok_of(prog, T, depth=0):
+    """Ok payload(s) of a Result-valued term returned as it is: `x.map(|v| f(v))` -> f(ok(x)); `x.and_then(|v| g(v))` -> the Ok
+    payloads of g(ok(x)); anything else -> its Ok payload"""
+    from .terms import okval
+    if is_call(T) and len(T[2]) == 2 and T[2][1][0] == "closure" and "result::Result" in T[1] and depth < 3:
+        nm = T[1].rsplit("::", 1)[-1]
+        body = closure_body(prog, T[2][1], {2: okval(T[2][0])})
+        if body is not None and nm == "map":
+            return [body]
+        if body is not None and nm == "and_then":
+            alts = body[2] if body[0] == "phi" else (body,)
+            out = []
+            for a in alts:
+                if a[0] in ("residual", "errval") or (a[0] == "agg" and a[2] == "core::result::Result" and a[3] == "Err"):
+                    continue
+                out += ok_of(prog, a, depth + 1)
+            return out
+    return [okval(T)]
 
 
 def loc_of(fn, bb=None):
@@ -1888,3 +1908,63 @@ def site_is_per_item(f, ctx_, site):
         lps = [lp for lp in f.loops() if lp["header"] == ctx_[1]]
         return bool(lps) and outer and outer[0] == f.key and outer[-1] in lps[0]["body"]
     return False
+
+
+def tail_results(P, f, v):
+    """the Result-valued call(s) whose value a function returns as it is, looking through `x.and_then(|v| g(v))` (= g(ok(x))) and
+    `x.map_err(..)`: [terms]"""
+    from .terms import okval
+    out = []
+
+    def walk(T, depth=0):
+        T = peel_result(T)
+        if is_call(T) and len(T[2]) == 2 and T[2][1][0] == "closure" and "result::Result" in T[1] and T[1].rsplit("::", 1)[-1] == "and_then" and depth < 3:
+            body = closure_body(P, T[2][1], {2: okval(T[2][0])})
+            if body is not None:
+                for a in (body[2] if body[0] == "phi" else (body,)):
+                    walk(a, depth + 1)
+                return
+        out.append(T)
+    for (b, k, rv) in ret_writes(f):
+        if k == "call":
+            walk(v.cx.call(rv, v.cx.site(b)))
+    return out
+
+
+def sep_holds(prog, fn, mechanisms, sinks, require_fail_err=True):
+    """silent SEP: every path from entry to a sink crosses a PASS edge of some mechanism (helpers and tail values included)"""
+    v = FnView.get(prog, fn)
+    pe, found = pass_edges_of(prog, v, mechanisms, sinks, require_fail_err)
+    left = set(sinks) - guarded_sinks(prog, v, mechanisms, sinks, require_fail_err)
+    return bool(set(sinks)) and (bool(found) or not left) and not sep(fn, pe, left)
+
+
+def array_len_of_type(ty):
+    import re
+    m = re.search(r"\[u8; (\d+)\]", ty or "")
+    return int(m.group(1)) if m else None
+
+
+def exact_length(prog, fn, sinks, inp, const_n=None, sum_of=None):
+    """Every path to a sink has established len(inp) == N (const_n) or == a + b (sum_of = (pred a, pred b)).  Reviewed idioms:
+       `inp.len() != N` refusal;  `<&[u8; N]>::try_from(inp)` is Ok;  `inp.split_at_checked(a)` is Some and the rest's length == b
+       (hence len == a + b).  -> name of the idiom that holds, or None"""
+    if const_n is not None:
+        if sep_holds(prog, fn, [("len==N", cmp_fact("eq", length(inp), const(const_n), False))], sinks):
+            return "len == %d" % const_n
+        tf = lambda t: is_call(t) and t[1].rsplit("::", 1)[-1] == "try_from" and len(t[2]) == 1 and inp(t[2][0]) and \
+            array_len_of_type(t[4] if len(t) > 4 and isinstance(t[4], str) else "") == const_n
+        if sep_holds(prog, fn, [("<&[u8; N]>::try_from", succ_fact(tf))], sinks, require_fail_err=False):
+            return "<&[u8; %d]>::try_from(..) is Ok" % const_n
+        return None
+    pa, pb = sum_of
+    total = lambda t: t[0] == "bin" and t[1] in ("Add", "AddWithOverflow") and ((pa(t[2]) and pb(t[3])) or (pa(t[3]) and pb(t[2])))
+    if sep_holds(prog, fn, [("len==a+b", cmp_fact("eq", length(inp), total, False))], sinks):
+        return "len == a + b"
+    for (x, y) in ((pa, pb),):
+        sp = lambda t, x=x: is_call(t, name="split_at_checked") and len(t[2]) == 2 and inp(t[2][0]) and x(t[2][1])
+        rest = lambda t, sp=sp: t[0] == "field" and t[2] is None and t[3] == "1" and t[1][0] == "some" and sp(t[1][1])
+        if sep_holds(prog, fn, [("split_at_checked(a) is Some", succ_fact(sp))], sinks, require_fail_err=False) and \
+                sep_holds(prog, fn, [("rest.len()==b", cmp_fact("eq", length(rest), y, False))], sinks, require_fail_err=False):
+            return "split_at_checked(a) is Some and rest.len() == b"
+    return None
